@@ -162,6 +162,11 @@ def run_case(spec):
     box = tuple(int(x) for x in rng.integers(0, 3 if n_inf < 3 else 2, size=n_inf))
     if not any(box):
         box = (1,) + box[1:]
+    if n_inf == 2 and rng.random() < 0.2:
+        # deep two-parameter boxes (total order >= 5): splittings for which "larger total order" and "more expensive
+        # factor" differ, e.g. (4, 1) = (3, 0) + (1, 1)
+        box = [(4, 1), (1, 4), (3, 2), (2, 3)][int(rng.integers(4))]
+        counters["deep_two_parameter_box"] += 1
     orders = list(itertools.product(*[range(b + 1) for b in box]))
     p_zero = float(rng.choice([0.1, 0.3, 0.6]))
     sample = dict(kind=kind, n_inf=n_inf, box=box, p_zero=p_zero)
